@@ -47,6 +47,7 @@ def gen_abf(r, cid, big=False):
     # mode "script": no "shared on" in the configuration, all walkers call "cv bias a share" after the steps in xsteps
     # mode "oldfmt": restarts go through a state of the older format (no last_* section), right after an exchange
     mode = r.choice(["freq"] * 5 + ["script"] * 2 + ["oldfmt"])
+    fscale = r.choice([1.0, 1.0, 1.0, 2.0 ** -26, 2.0 ** 26])      # forces of the order 1e-8 .. 1e8 (powers of two: sums stay exact)
     xsteps = set()
     if mode == "script":
         xsteps = set(t for t in range(1, t_end + 1) if r.random() < 0.4) or {max(1, t_end)}
@@ -60,11 +61,12 @@ def gen_abf(r, cid, big=False):
         s = []
         for t in range(t_end + 1):
             if r.random() < 0.08:
-                bins = [r.choice([-1, nb]) if r.random() < 0.5 else r.randint(0, nb - 1) for nb in nbins]
+                # just outside (by less than a bin; with frac 0.0 and bin nb: exactly on the upper boundary) and far outside
+                bins = [r.choice([-1, nb, nb, -1000, nb + 10 ** 6]) if r.random() < 0.5 else r.randint(0, nb - 1) for nb in nbins]
             else:
                 bins = [r.randint(0, nb - 1) for nb in nbins]
             frac = r.choice([0.5, 0.5, 0.0, 0.25, 0.984375])
-            forces = [V.dyadic(r, -8, 8) for _ in range(nd)]
+            forces = [V.dyadic(r, -8, 8) * fscale for _ in range(nd)]
             s.append(["s", w, bins, forces, frac])
             if t in xsteps:
                 s.append(["x", w])
@@ -74,7 +76,7 @@ def gen_abf(r, cid, big=False):
                 s.append(["o", w])
             if r.random() < p_restart and t < t_end and (mode != "oldfmt" or (t > 0 and (S0 + t) % F == 0)):
                 s.append(["R", w, r.choice(["text", "binary"])] if mode == "oldfmt" else ["r", w, r.choice(["text", "binary", "str", "buf"])])
-                s.append(["s", w, bins, [V.dyadic(r, -8, 8) for _ in range(nd)], frac])   # the repeated step
+                s.append(["s", w, bins, [V.dyadic(r, -8, 8) * fscale for _ in range(nd)], frac])   # the repeated step
         seqs.append(s)
     # interleave: a walker that issued an exchange step is blocked until all walkers issued theirs
     pos = [0] * n
